@@ -43,7 +43,7 @@ var builtinRenames = []struct{ re *regexp.Regexp; to string }{
 var callParams = []string{"pa", "pb", "pc"}
 
 // names that must not be visible after the calls/cases that created them
-var callProbeNames = []string{"pa", "pb", "pc", "la", "li", "lx", "mq", "ma", "loc1", "loc2", "ga", "ca", "va", "rn", "en", "on", "na", "ra", "loc3", "da", "dx", "dq", "oa", "qa", "ma1", "ma2", "mo", "mb1", "mb2", "qb", "loc4", "loc5", "wn", "wx", "lq", "lm1", "lother", "lb", "lbo", "ml1", "mlo", "wa", "t1", "t2", "t3", "fa", "fl", "fr", "ns", "nc", "sa", "acc", "sacc", "lacc", "fo", "fs", "fn", "mz1", "mz2", "mz3", "mz4", "show2", "mn1", "mn2", "mno"}
+var callProbeNames = []string{"pa", "pb", "pc", "la", "li", "lx", "mq", "ma", "loc1", "loc2", "ga", "ca", "va", "rn", "en", "on", "na", "ra", "loc3", "da", "dx", "dq", "oa", "qa", "ma1", "ma2", "mo", "mb1", "mb2", "qb", "loc4", "loc5", "wn", "wx", "lq", "lm1", "lother", "lb", "lbo", "ml1", "mlo", "wa", "t1", "t2", "t3", "fa", "fl", "fr", "ns", "nc", "sa", "acc", "sacc", "lacc", "fo", "fs", "fn", "mz1", "mz2", "mz3", "mz4", "show2", "mn1", "mn2", "mno", "zs", "zq", "rv1", "ak"}
 
 func (c *CallCase) program() string {
 	var sb strings.Builder
@@ -112,6 +112,12 @@ function mkfresh() { fa = []
  return [fa.length(), fo.length(), fs, fn] }
 function shadow(sa, G) { G = [sa]
  return G }
+function getn() { return RN }
+function addn(ak) { RN = RN + ak
+ return RN }
+function getg() { return G }
+function mark() { zs.flag = 1 }
+function peekz() { return zq is unknown }
 function proc(qb) { loc4 = clobber(qb)
  loc5 = fid(qb) }
 function walk(wn) { if (wn is array) { for (wx in wn) { walk(wx) } } else { return wn } }
@@ -119,6 +125,7 @@ function litmatch(lq) { return match (lq) { [] => "e", [0, 0] => "o", [1, [2, 3]
 function litblock(lb) { match (lb) { [] => { LB = "e" }, [0, 0] => { LB = "o" }, lbo => { LB = "x" } }
  return LB }
 BEGIN { G = "g0"
+ RN = 10
  NX = "n0"
  LB = "l0"
  step = 0 }
@@ -187,6 +194,11 @@ $.op == "nextexpr" { print step, "beforex"
 $.op == "mnext" { print step, "beforem"
  mnr = match ($.a[0]) { [mn1, mn2] => donext(mn1), mno => donext2(mno) }
  print step, "NOT REACHED" }
+$.op == "retval" { RN = 10
+ print step, getn() + addn(5), getn(), addn(1)
+ match (getg()) { rv1 => { rv1 = "changed" } }
+ print step, G }
+$.op == "leafmark" { print step, mark(), peekz() }
 $.op == "proc" { print step, proc($.a[0]) }
 $.op == "walk" { print step, walk($.a[0]) }
 $.op == "mlit" { print step, match ($.a[0]) { [] => "e", [0, 0] => "o", [1, [2, 3]] => "d", [ml1, 9] => ["n", ml1], mlo => "x" } }
@@ -442,6 +454,17 @@ func (c *CallCase) model() (lines []string, exited bool, ok bool) {
 			emit("beforex")
 			NX = arg(0)
 			skipEOR = true
+		case "retval":
+			// what a call yields is a value: it does not change when the variable
+			// named in the return statement changes later in the same expression,
+			// and changing it does not change the variable
+			emit("25 15 16")
+			emit(p(G))
+		case "leafmark":
+			// names a parameterless function creates by storing a member or by
+			// merely reading them are the callee's
+			// (the rule itself does not mention them: reading a name creates it where it is read)
+			emit("null true")
 		case "mnext":
 			// next raised by a function called from an expression-bodied case that binds names
 			emit("beforem")
@@ -712,8 +735,8 @@ func genCallArg(t *Tape) string {
 }
 
 func genCallOp(t *Tape) CallOp {
-	ops := []string{"id0", "id1", "id2", "id3", "id4", "loopret", "mklocal", "setg", "readg", "clobber", "viaother", "rec", "mutual", "donext", "donext2", "noret", "outer", "mexpr", "mblock", "pat", "proc", "walk", "mlit", "litmatch", "litblock", "awkloc0", "awkloc1", "awkloc2", "fresh", "fresh2", "nextstr", "shadow", "clobmiss", "nextexpr", "argorder", "argincr", "mlet", "mkfresh", "mstale", "pfname", "mnext"}
-	w := []int{1, 2, 2, 2, 2, 3, 3, 2, 2, 3, 2, 2, 1, 3, 2, 2, 2, 4, 3, 2, 3, 2, 3, 3, 2, 1, 2, 2, 4, 2, 2, 3, 3, 2, 3, 2, 4, 3, 4, 3, 3}
+	ops := []string{"id0", "id1", "id2", "id3", "id4", "loopret", "mklocal", "setg", "readg", "clobber", "viaother", "rec", "mutual", "donext", "donext2", "noret", "outer", "mexpr", "mblock", "pat", "proc", "walk", "mlit", "litmatch", "litblock", "awkloc0", "awkloc1", "awkloc2", "fresh", "fresh2", "nextstr", "shadow", "clobmiss", "nextexpr", "argorder", "argincr", "mlet", "mkfresh", "mstale", "pfname", "mnext", "retval", "leafmark"}
+	w := []int{1, 2, 2, 2, 2, 3, 3, 2, 2, 3, 2, 2, 1, 3, 2, 2, 2, 4, 3, 2, 3, 2, 3, 3, 2, 1, 2, 2, 4, 2, 2, 3, 3, 2, 3, 2, 4, 3, 4, 3, 3, 3, 3}
 	op := ops[t.Weighted(w...)]
 	var args []string
 	switch op {
